@@ -609,7 +609,7 @@ func parseRaceLogs(dir, phase string) []raceReport {
 			}
 			secs := strings.Split(strings.TrimSpace(blk), "\n\n")
 			var fns []string
-			nacc := 0
+			nacc, harnessInner := 0, 0
 			for _, s := range secs {
 				ls := strings.Split(s, "\n")
 				hdr := strings.TrimSpace(ls[0])
@@ -621,6 +621,17 @@ func parseRaceLogs(dir, phase string) []raceReport {
 					continue
 				}
 				nacc++
+				// the innermost non-runtime frame decides whose access it is
+				for _, l := range ls[1:] {
+					t := strings.TrimSpace(l)
+					if t == "" || strings.HasPrefix(t, "runtime.") || strings.HasPrefix(t, "/") || strings.HasPrefix(t, "<autogenerated>") || strings.HasPrefix(t, "sync") || strings.HasPrefix(t, "internal/") {
+						continue
+					}
+					if strings.HasPrefix(t, "verifharness/") {
+						harnessInner++
+					}
+					break
+				}
 				for _, l := range ls[1:] {
 					t := strings.TrimSpace(l)
 					if strings.HasPrefix(t, "github.com/gocql/gocql") {
@@ -630,6 +641,9 @@ func parseRaceLogs(dir, phase string) []raceReport {
 				}
 			}
 			sort.Strings(fns)
+			if nacc > 0 && harnessInner == nacc {
+				fns = nil // both accesses are made by harness code (possibly called from a gocql hook): a harness race
+			}
 			txt := reLine.ReplaceAllString(blk, "")
 			txt = reAddr.ReplaceAllString(txt, "0x")
 			if len(txt) > 5000 {
